@@ -39,7 +39,7 @@ def handle (op : String) (j : Json) : Except String Json := do
     let I ← getIvs j "iv"
     let size ← getNat j "size"
     -- counting is delegated to npstructures (specified external = per-base count); the empty case is in /repo
-    let m := if I.isEmpty then (Rle.toDense ⟨[0, size], [0]⟩) else specPileup I size
+    let m := getPileup specPileup I size
     pure (reply (Json.mkObj [("dense", natList m)]) (some (Json.mkObj [("dense", natList (specPileup I size))])))
   | "pileup_events" =>
     let I ← getIvs j "iv"
@@ -99,28 +99,38 @@ def handle (op : String) (j : Json) : Except String Json := do
     let tm := parts.foldl (fun acc p => add4 acc p.1) (0, 0, 0, 0)
     let ts := parts.foldl (fun acc p => add4 acc p.2) (0, 0, 0, 0)
     let f := if op == "forbes" then forbesF else jaccardF
-    -- `jaccard`/`forbes` feed each operand through `MultiStream`/`groupby`, which raises on a table with no
-    -- entries at all (known finding `jaccard:empty-operand-raises-ValueError`); `Geometry.jaccard` does not
-    let emptyOperand ← chroms.foldlM (fun (acc : Bool × Bool) c => do
-      let A ← getIvs c "a"
-      let B ← getIvs c "b"
-      pure (acc.1 && A.isEmpty, acc.2 && B.isEmpty)) (true, true)
-    let m := if op != "geo_jaccard" && (emptyOperand.1 || emptyOperand.2)
-      then Json.mkObj [("err", str "other:ValueError")] else Json.mkObj [("bits", bitsOf (f tm))]
+    -- (before fix 5241510 `jaccard`/`forbes` raised ValueError in `groupby` for an operand with no entries)
+    let m := Json.mkObj [("bits", bitsOf (f tm))]
     pure (reply m (some (Json.mkObj [("bits", bitsOf (f ts))])))
-  | "clip" | "geo_clip" =>
+  | "clip" =>
     let st ← getIntList j "start"
     let sp ← getIntList j "stop"
     let sz ← getIntList j "sizes"
     let out := (st.zip (sp.zip sz)).map (fun (s, e, z) => let r := clipK s e z; [r.1, r.2])
     pure (reply (Json.mkObj [("iv", intListList out)]))
-  | "extend" | "geo_extend" =>
+  | "geo_clip" =>
+    let st ← getIntList j "start"
+    let sp ← getIntList j "stop"
+    let ch ← getNatList j "chrom"
+    let cs ← getIntList j "chrom_sizes"
+    let out := (geoClip cs (ch.zip (st.zip sp))).map (fun r => [r.1, r.2])
+    pure (reply (Json.mkObj [("iv", intListList out)]))
+  | "extend" =>
     let st ← getIntList j "start"
     let sp ← getIntList j "stop"
     let sz ← getIntList j "sizes"
     let fw ← getNatList j "fwd"
     let len ← getInt j "len"
     let out := (st.zip (sp.zip (sz.zip fw))).map (fun (s, e, z, f) => let r := extendK (f == 1) s e len z; [r.1, r.2])
+    pure (reply (Json.mkObj [("iv", intListList out)]))
+  | "geo_extend" =>
+    let st ← getIntList j "start"
+    let sp ← getIntList j "stop"
+    let ch ← getNatList j "chrom"
+    let cs ← getIntList j "chrom_sizes"
+    let fw ← getNatList j "fwd"
+    let len ← getInt j "len"
+    let out := (geoExtend cs len (ch.zip ((fw.map (· == 1)).zip (st.zip sp)))).map (fun r => [r.1, r.2])
     pure (reply (Json.mkObj [("iv", intListList out)]))
   | _ => throw s!"C08: unknown op {op}"
 
